@@ -213,6 +213,32 @@ static void op_select(void) {
   vx_outcome(h); DelMatrix(&m);
 }
 
+
+/* ------------------------------------------------------------------ reused outputs (k-means)
+ * KMeans documents cluster_labels and _centroids_ as outputs and (re)sizes both itself (UIVectorResize / ResizeMatrix), then
+ * assigns every label and every centroid cell: the result must not depend on what the two objects held before the call --
+ * nothing (initUIVector / initMatrix), the result of the same call, the result for another k, or objects of another size.
+ * Same seed, same thread count (1): compared bit for bit with the result obtained with fresh outputs.
+ * The selection routines (MDC, MaxDis, MaxDis_Fast, KMeansppCenters) are NOT judged this way: their "selections" vector is
+ * filled with UIVectorAppend ("initialised uivector ... will be filled up"), and MaxDis / KMeansppCenters consult its current
+ * content (UIVectorHasValue) as the set of objects already chosen, so a non-empty vector is an input, not a stale output. */
+static int m_same(const matrix *a, const matrix *b) {
+  if (a->row != b->row || a->col != b->col) return 0;
+  for (size_t i = 0; i < a->row; i++) for (size_t j = 0; j < a->col; j++) { double x = a->data[i][j], y = b->data[i][j]; if (!(x == y || (x != x && y != y))) return 0; }
+  return 1;
+}
+static matrix *m_dup(const matrix *a) { matrix *m; NewMatrix(&m, a->row, a->col); for (size_t i = 0; i < a->row; i++) memcpy(m->data[i], a->data[i], sizeof(double) * a->col); return m; }
+static matrix *m_junk(int r, int c) { matrix *m; NewMatrix(&m, (size_t)r, (size_t)c); for (int i = 0; i < r; i++) for (int j = 0; j < c; j++) m->data[i][j] = 1e3 + 7.0 * i - 3.0 * j + 0.25; return m; }
+static uivector *u_junk(int n) { uivector *u; NewUIVector(&u, (size_t)n); for (int i = 0; i < n; i++) u->data[i] = (size_t)(1000 + i); return u; }
+static void reuse_kmeans(const char *cls, const char *how, matrix *m, int k, int init, int seed, uivector *lo, matrix *co, const uivector *wl, const matrix *wc) {
+  char key[96];
+  srand_((uint32_t)(seed + 1)); vx_tick_reset(); KMeans(m, (size_t)k, init, lo, co, 1); vx_transition(1);
+  int okl = uiv_equal(lo, wl), okc = m_same(co, wc);
+  snprintf(key, sizeof key, "reuse|KMeans|%s", cls);
+  vx_check(okl && okc, key, "KMeans(%zu x %zu, k=%d, %s, seed %d, 1 thread) into outputs that %s: %s differ from the result with fresh outputs (%zu labels, fresh %zu; centroids %zux%zu, fresh %zux%zu, max difference %g)",
+           m->row, m->col, k, init == 0 ? "random" : init == 1 ? "kmeans++" : init == 2 ? "MDC" : "MaxDis", seed + 1, how, !okl ? "the labels" : "the centroids", lo->size, wl->size, co->row, co->col, wc->row, wc->col, okc ? 0.0 : hm_maxdiff(co, wc));
+}
+
 /* ------------------------------------------------------------------ k-means */
 static const char *INIT[4] = {"random", "kmeans++", "MDC", "MaxDis"};
 static void op_kmeans(void) {
@@ -274,6 +300,23 @@ static void op_kmeans(void) {
   }
   snprintf(key, sizeof key, "thread-independence|%s|%s", fn, tc);
   JUDGE(uiv_equal(l1, lt) && hm_maxdiff(c1, ct) <= 64.0 * DEPS * (n + 2) * maxabs, key, "KMeans(%d x %d, k=%d, %s, seed %d): labels/centroids with %d threads differ from 1 thread (max centroid difference %g)", n, d, k, INIT[init], seed + 1, th, hm_maxdiff(c1, ct));
+  /* ---- reused outputs: on the 1-thread member of every (initialiser, data set, k, seed, scale) -- thread counts do not enter.
+   * lt/ct hold the fresh 1-thread result: the same call again into them; then into objects filled by KMeans for ANOTHER k on the
+   * same data (centroid rows differ, label count equal); hand-filled objects with d+1 columns and n-1 labels; with k+2 rows,
+   * d+3 columns and n+5 labels */
+  if (!H_TSAN && th == 1 && lab_ok && shape_ok) {
+    uivector *wl, *lo; matrix *wc = m_dup(ct), *co; initUIVector(&wl); for (size_t i = 0; i < lt->size; i++) UIVectorAppend(wl, lt->data[i]);
+    snprintf(g_tick, sizeof g_tick, "nonterm|KMeans:reused-outputs|k=%d", k);
+    reuse_kmeans("same-shape", "hold the result of the same call", m, k, init, seed, lt, ct, wl, wc);
+    int k2 = k < kmax ? k + 1 : k - 1;
+    initUIVector(&lo); initMatrix(&co); srand_((uint32_t)(seed + 1)); vx_tick_reset(); KMeans(m, (size_t)k2, init, lo, co, 1);
+    reuse_kmeans("one-dim-differs", "hold the result for another number of clusters", m, k, init, seed, lo, co, wl, wc); DelUIVector(&lo); DelMatrix(&co);
+    lo = u_junk(n - 1); co = m_junk(k, d + 1);
+    reuse_kmeans("one-dim-differs", "held k centroids of another dimension and labels of another number of objects", m, k, init, seed, lo, co, wl, wc); DelUIVector(&lo); DelMatrix(&co);
+    lo = u_junk(n + 5); co = m_junk(k + 2, d + 3);
+    reuse_kmeans("both-dims-differ", "held a centroid matrix with other numbers of rows and columns and labels of another number of objects", m, k, init, seed, lo, co, wl, wc); DelUIVector(&lo); DelMatrix(&co);
+    DelUIVector(&wl); DelMatrix(&wc);
+  }
   vx_outcome(h);
   DelUIVector(&l1); DelUIVector(&lt); DelMatrix(&c1); DelMatrix(&ct); DelMatrix(&m);
 }
@@ -292,7 +335,8 @@ int main(int argc, char **argv) {
               "k-means: k = 1..min(6,n) x initialiser {random, kmeans++, MDC, MaxDis} x seeds (random initialisers) x data scale {1, 1e-4}; thread counts {1,2,3,8} (thorough: 1..8; {1,2,3,8} for the 80-object selections)");
   vx_describe("oracle", "distinct in-range indices of the requested number; first = farthest from centroid and every next maximises the minimum library-metric value to the chosen ones "
               "(long double, candidates within 1e-9 accepted); MaxDis == MaxDis_Fast when no step is a near-tie; labels < k; centroid = mean of its members to 64 eps (members+2) max|x|; "
-              "own-centroid distance <= nearest + 2 sqrt(d) 1e-3 when fewer than 101 iterations ran; results equal to the 1-thread run");
+              "own-centroid distance <= nearest + 2 sqrt(d) 1e-3 when fewer than 101 iterations ran; results equal to the 1-thread run; "
+              "KMeans into reused label / centroid objects (same call, another k, other sizes) = result with fresh outputs, bit for bit (1-thread member of every k-means input)");
   vx_set_shard_depth(7);
   vx_expect_outcomes(H_TSAN ? 100 : 1000);
   return vx_main(argc, argv, "C17", body);
